@@ -108,6 +108,30 @@ def scen_tv(ch, params, out):
         out.info["classes"] = len(em.ld.classes)
     finally:
         em.close()
+    if params.get("second_emission") and not out.failures:
+        # the same model graph rendered once more under another configuration: the second program must denote the graph under
+        # ITS configuration (nothing about a type's rendering may be remembered from the first one)
+        from vflib import pipeline
+        fw2 = ch.choose("second_framework", progsym.FRAMEWORKS)
+        kw2 = dict(prog["kwargs"])
+        kw2["max_literals"] = ch.choose("second_max_literals", [10, 0, 1])
+        for k in ("meta", "post_init_converters"):
+            kw2.pop(k, None)
+        if fw2 in ("attrs", "dataclasses"):
+            kw2["meta"] = True
+        prog2 = dict(prog, framework=fw2, kwargs=kw2)
+        out.info["second"] = {"framework": fw2, "kwargs": kw2}
+        ctx2 = lambda: f"SECOND emission {fw2} {kw2} from the registry first rendered as {prog['framework']} {prog['kwargs']}; keys {prog['k']} template {prog['template']}"
+        try:
+            text2 = pipeline.emit(reg, fw2, prog["layout"], **kw2)
+            em2 = emitcheck.Emitted(text2, reg, fw2, prog["layout"])
+        except Exception:
+            out.checked += 1
+            return
+        try:
+            validate_program(em2, reg, prog2, out, ctx2)
+        finally:
+            em2.close()
 
 
 def parts(tier):
@@ -121,11 +145,18 @@ def parts(tier):
             CH("odd_characters", "vflib.props.c04:scen_tv", {"pool": "KEY_POOL_ODD", "styled": "k3",
                                                              "templates": ["nested_object", "list_of_objects", "odd_values_nested", "odd_string_values"]},
                shards=8, timeout=170, path_timeout=30),
+            CH("second_emission_same_registry", "vflib.props.c04:scen_tv", {"pool": "KEY_POOL_QUICK", "styled": "k3", "second_emission": True,
+                                                                            "layouts": ["flat"],
+                                                                            "templates": ["flat_scalars", "odd_string_values", "list_of_objects"]},
+               shards=16, timeout=170, path_timeout=30),
         ]
     from vflib import progsym
     return [
         CH("k1k2", "vflib.props.c04:scen_tv", {"pool": "KEY_POOL_FULL", "styled": "k1k2", "templates": progsym.TEMPLATES_FULL}, shards=16, timeout=400, path_timeout=30),
         CH("options", "vflib.props.c04:scen_tv", {"pool": "KEY_POOL_FULL", "styled": "k3", "options": True, "templates": progsym.TEMPLATES_FULL},
+           shards=16, timeout=400, path_timeout=30),
+        CH("second_emission_same_registry", "vflib.props.c04:scen_tv", {"pool": "KEY_POOL_QUICK", "styled": "k3", "second_emission": True, "options": True,
+                                                                        "templates": ["flat_scalars", "odd_string_values", "list_of_objects", "nested_object"]},
            shards=16, timeout=400, path_timeout=30),
     ]
 
